@@ -120,7 +120,10 @@ impl TopDownContext<'_, '_> {
       .collect();
     for dependency in dependencies.iter() {
       let consistent = match dependency {
-        Dependency::ReservedRequire => panic!("BUG: attempt to consistency check reserved require task dependency"),
+        // A reserved require dependency is only left behind when the execution of this task was aborted (panic in
+        // the required task, or a diagnosed cycle/hidden dependency/overlapping write) before the dependency was
+        // updated. The task never completed that execution (it has no output), so it is inconsistent.
+        Dependency::ReservedRequire => Ok(false),
         Dependency::Require(task_dependency) => Ok(task_dependency.is_consistent(self)),
         Dependency::Read(resource_dependency) | Dependency::Write(resource_dependency) => resource_dependency.is_consistent_top_down(
           &mut self.session.resource_state,
